@@ -219,7 +219,7 @@ func c37Stakes(r *Rand, small bool, tier string) (uint64, uint64, int) {
 //     integer arithmetic for the exact path (independent of the code under test);
 //   - CPraos eligibility with coefficients whose threshold is far from both 0 and 2^256, so a
 //     threshold computed in the other mode's range flips the verdict for about half the outputs.
-func c37Fixed(r *Rand, emit func(string)) {
+func c37Fixed(r *Rand, tier string, emit func(string)) {
 	two512 := new(big.Int).Lsh(big.NewInt(1), 512)
 	for _, nm := range [][2]int64{{2, 3}, {3, 4}, {2, 5}, {3, 5}, {5, 7}, {4, 9}} {
 		n, m := nm[0], nm[1]
@@ -265,6 +265,33 @@ func c37Fixed(r *Rand, emit func(string)) {
 			}
 		}
 	}
+	// large reduced denominators whose 1-f is an exact m-th power (the exact fast path where the
+	// integer certificate with m-th powers of U is infeasible): certified by the exact-root checker;
+	// and the same coefficients moved off the power by one unit (rational certificate)
+	for _, c := range []struct{ n, m, r, s int64 }{{7, 600, 1, 2}, {3, 1000, 1, 2}, {11, 1500, 3, 4}, {5, 997, 1, 2}} {
+		den := c37Pow(c.s, c.m)
+		num := new(big.Int).Sub(den, c37Pow(c.r, c.m))
+		fs := num.String() + " " + den.String()
+		pool, total := uint64(c.n)*3, uint64(c.m)*3
+		for mode := 0; mode <= 1; mode++ {
+			emit(fmt.Sprintf("thr %d %d %d %s", mode, pool, total, fs))
+		}
+		sn := c37Pow(c.s, c.n)
+		t := new(big.Int).Mul(two512, new(big.Int).Sub(sn, c37Pow(c.r, c.n)))
+		t.Quo(t, sn)
+		for d := int64(-1); d <= 1; d++ {
+			v := new(big.Int).Add(t, big.NewInt(d))
+			if v.Sign() >= 0 && v.BitLen() <= 512 {
+				emit(fmt.Sprintf("elig 1 %d %d %s %s", pool, total, fs, hexs(v.FillBytes(make([]byte, 64)))))
+			}
+		}
+		// one unit off the power: the value sits 2^-(bits of den) from an integer boundary, so the
+		// certificate needs that much precision (seconds for the 3000-bit cases: thorough tier only)
+		if c.m <= 600 || tier == "thorough" {
+			off := new(big.Int).Sub(num, big.NewInt(1))
+			emit(fmt.Sprintf("thr %d %d %d %s %s", r.Intn(2), pool, total, off.String(), den.String()))
+		}
+	}
 	// CPraos: eight outputs against T = 2^255 (f = 1/2, full stake) and T ~ 2^256/20
 	for k := 0; k < 8; k++ {
 		emit(fmt.Sprintf("elig 0 5 5 1 2 %s", hexs(r.Bytes(64))))
@@ -274,7 +301,7 @@ func c37Fixed(r *Rand, emit func(string)) {
 }
 
 func genC37(r *Rand, n int, tier string, emit func(string)) {
-	c37Fixed(r, emit)
+	c37Fixed(r, tier, emit)
 	for i := 0; i < n; i++ {
 		mode := Pick(r, 0, 0, 1, 1, 0, 1, 0, 1, 0, 1, 0, 1, 0, 1, 2, 7)
 		small := !r.Chance(1, 4)
